@@ -445,6 +445,7 @@ func updateAPIKeys(_ context.Context, _ interface{}) error {
 				log.Infof("api: removed expired API keys from %s", CfgAPIKeys)
 			}
 
+			verifEvent("apiKeyCleanup:done")
 			return nil
 		})
 	}
